@@ -189,7 +189,7 @@ func (e *enumSess) buildDir(shape string, idx int) ([]byte, map[string]bool, int
 	for i := 0; i < n; i++ {
 		name := fmt.Sprintf("e%03d", i)
 		if shape == "longnames" {
-			name = fmt.Sprintf("e%03d", i) + longName((i*13)%(s.m.Lim.NameMax-4), 'n')
+			name = fmt.Sprintf("e%03d", i) + longName((i*13)%(s.m.Lim.NameMax-3), 'n') // lengths 4..name_max
 		}
 		mk(name, i)
 	}
